@@ -115,6 +115,16 @@ func CaptureBlackhole(t *testing.T, spec *quic.QUICSpec, conf *quic.Config, dur 
 // CaptureLive dials spec against the in-tree server (optionally with faults on the first datagrams), echoes a
 // few bytes, and returns the whole client flight including retransmissions.
 func CaptureLive(t *testing.T, spec *quic.QUICSpec, conf *quic.Config, faults []sim.Fault, retry bool) Flight {
+	return captureLive(t, spec, conf, faults, retry, nil)
+}
+
+// CaptureLiveVN is CaptureLive against a server that only speaks QUIC v2: the client's v1 Initial is answered with a
+// Version Negotiation packet and the dial continues with a re-created connection (packet numbers continue).
+func CaptureLiveVN(t *testing.T, spec *quic.QUICSpec, conf *quic.Config, faults []sim.Fault) Flight {
+	return captureLive(t, spec, conf, faults, false, []quic.Version{quic.Version2})
+}
+
+func captureLive(t *testing.T, spec *quic.QUICSpec, conf *quic.Config, faults []sim.Fault, retry bool, serverVersions []quic.Version) Flight {
 	var f Flight
 	sim.Bubble(t, 30*time.Second, func() {
 		w := sim.NewWorld(10*time.Millisecond, faults, nil, nil)
@@ -126,7 +136,7 @@ func CaptureLive(t *testing.T, spec *quic.QUICSpec, conf *quic.Config, faults []
 			st.VerifySourceAddress = func(net.Addr) bool { return true }
 		}
 		defer st.Close()
-		ln, err := st.Listen(sim.ServerTLS(false, w.ServerKeys), &quic.Config{DisablePathMTUDiscovery: true, MaxIdleTimeout: 20 * time.Second, HandshakeIdleTimeout: 10 * time.Second})
+		ln, err := st.Listen(sim.ServerTLS(false, w.ServerKeys), &quic.Config{Versions: serverVersions, DisablePathMTUDiscovery: true, MaxIdleTimeout: 20 * time.Second, HandshakeIdleTimeout: 10 * time.Second})
 		if err != nil {
 			f.DialErr = err
 			return
